@@ -226,7 +226,8 @@ def oracle_det(rng, sets, n=4):
             # the same angles and durations are requested twice on the same gate-set object, the second time with the two qubits'
             # calibration values exchanged (another qubit, same pulse): the law is per call, whatever was sampled before
             # ... and a third time with pure dephasing switched off by the package's own convention T2 = 0 (T1 finite): the law does not involve T2
-            for (T1c, T2c, pc, T1t, T2t, pt) in ((T1c, T2c, pc, T1t, T2t, pt), (T1t, T2t, pt, T1c, T2c, pc), (T1c, 0.0, pc, T1t, 0.0, pt)):
+            # ... and a fourth time on the T1-limited boundary T2 = 2*T1 exactly (in the property's domain: pure dephasing vanishes there)
+            for (T1c, T2c, pc, T1t, T2t, pt) in ((T1c, T2c, pc, T1t, T2t, pt), (T1t, T2t, pt, T1c, T2c, pc), (T1c, 0.0, pc, T1t, 0.0, pt), (T1c, 2 * T1c, pc, T1t, 2 * T1t, pt)):
                 E1c, E1t = T1c / sc, T1t / sc      # effective T1 seen by the factories
                 chk = [("X", g.X(a, pc, T1c, T2c), nf.X(a, 0, 0, 0), det_pred(2, [(TG, E1c)]), (a, pc, T1c, T2c)),
                        ("SX", g.SX(a, pc, T1c, T2c), nf.SX(a, 0, 0, 0), det_pred(2, [(TG, E1c)]), (a, pc, T1c, T2c)),
@@ -244,6 +245,8 @@ def oracle_det(rng, sets, n=4):
                     chk.append((nm, getattr(g, nm)(*args), getattr(nf, nm)(a, b, tt, 0, 0, 0, 0, 0, 0, 0), det_pred(4, [(tc, E1c), (tc, E1t)]), args))
                 for nm, G, G0, pr, args in chk:
                     cnt += 1
+                    if not np.all(np.isfinite(np.asarray(G))):
+                        out.append((sname, nm, [float(x) for x in args], "the sampled gate has nan / inf entries")); continue
                     r = np.linalg.det(G) / np.linalg.det(G0) / pr
                     if not abs(r - 1) < 1e-10:
                         out.append((sname, nm, [float(x) for x in args], complex(r)))
